@@ -347,7 +347,8 @@ def opkind(line):
 
 
 def mon_hosts_addrs(case, out):
-    """hosts-file lookups: when every line of the file is well-formed and no address occurs twice, a name that is found
+    """hosts-file lookups: when every line of the file is well-formed, no address occurs twice and no line joins two
+    existing entries, a name that is found
     must come back with (at least) every address listed for it on any line, whatever the family"""
     import binascii
     import re as _re
@@ -363,7 +364,7 @@ def mon_hosts_addrs(case, out):
                 raw = binascii.unhexlify(t[2]).decode("latin1")
             except Exception:
                 continue
-            parsed, ok, seen = [], True, set()
+            parsed, ok, seen, ents = [], True, set(), []
             for ln in _re.split(r"[\r\n]", raw):
                 ln = ln.split("#", 1)[0].strip(" \t")
                 if not ln:
@@ -378,7 +379,18 @@ def mon_hosts_addrs(case, out):
                     ok = False
                     break
                 seen.add(ip)
-                parsed.append((ip, [n.lower() for n in tok[1:]]))
+                names = [n.lower() for n in tok[1:]]
+                parsed.append((ip, names))
+                # the loader merges a line into the entry that already knows one of its names; a line whose names
+                # belong to two different entries is merged into the first match only - the monitor does not judge those
+                hit = [e for e in ents if e & set(names)]
+                if len(hit) > 1:
+                    ok = False
+                    break
+                if hit:
+                    hit[0].update(names)
+                else:
+                    ents.append(set(names))
             lines = parsed if ok else None
         elif t[0] == "hosts" and lines is not None:
             res = o.split(" ")
@@ -398,6 +410,43 @@ def mon_hosts_addrs(case, out):
     return bad
 
 
+def gen_hosts_reload(rng, tier):
+    """one channel across rewrites of the hosts file: after every rewrite whose modification time is not older than the
+    moment the channel loaded the file, a lookup must answer from the new content (same answer as a fresh channel)"""
+    from props import C15 as _c15
+    import binascii
+    cases = []
+    n = 200 if tier == "quick" else 5000
+    for _ in range(n):
+        now = rng.choice([1000, 50000, 1700000000])
+        qs = ["n:" + binascii.hexlify(rng.choice(_c15.HOSTNAMES).encode()).decode() for _ in range(3)]
+        ops = ["now %d" % now]
+        for _ in range(rng.randint(2, 5)):
+            base = [_c15._hosts_line(rng) for _ in range(rng.randint(0, 4))]
+            ops.append("file /virt/h " + binascii.hexlify(b"\n".join(base) + b"\n").decode())
+            ops.append("hostsk /virt/h " + " ".join(qs))
+            ops.append("hosts /virt/h " + " ".join(qs))
+            now += rng.choice([0, 0, 0, 1, 2, 61])
+            ops.append("now %d" % now)
+        cases.append(ops)
+    return cases
+
+
+def mon_hosts_reload(case, out):
+    bad = []
+    prev = None
+    for line, o in zip(case, out):
+        t = line.split()
+        if t[0] == "hostsk":
+            prev = (line, o)
+        elif t[0] == "hosts" and prev is not None:
+            if prev[1] != o:
+                bad.append(("hosts-stale-after-rewrite", "a channel that had the hosts file loaded answers %r after the file was "
+                            "rewritten; a fresh read of the file gives %r" % (prev[1][:200], o[:200])))
+            prev = None
+    return bad
+
+
 def _hosts_stream():
     from props import C15 as _c15
     return Stream("hosts", "h_text", "driver_text", _c15.gen_hosts, monitor=mon_hosts_addrs, nontrivial=_c15._nontrivial)
@@ -414,6 +463,8 @@ STREAMS = [
     Stream("sortlist", "h_legacy", "driver_legacy", gen_sortlist, monitor=mon_sortlist,
            driver_input=lc.driver_input, compare=lc.compare_skip_mon, opkind=opkind),
     _hosts_stream(),
+    Stream("hosts-reload", "h_text", None, gen_hosts_reload, monitor=mon_hosts_reload,
+           nontrivial=lambda c, o: any(x.startswith("ok|") or " ok|" in x for x in o)),
 ]
 
 LEVEL_TEXT = ("Proof (PURE PART; the end-to-end lookups - merge of the A and AAAA sub-queries, hosts file, lookup "
